@@ -77,20 +77,18 @@ const (
 )
 
 func (d *structDecoder) tryOptimize() {
-	fieldUniqueNameMap := map[string]int{}
-	fieldIdx := -1
-	for k, v := range d.fieldMap {
-		lower := strings.ToLower(k)
-		idx, exists := fieldUniqueNameMap[lower]
-		if exists {
-			v.fieldIdx = idx
-		} else {
-			fieldIdx++
-			v.fieldIdx = fieldIdx
+	// one index per field; the exact name and the lower-cased alias of a field are
+	// entries of the same field set. (Indexing by lower-cased name gave two fields
+	// whose names differ only in case one index: with the first-win option the
+	// second of them was taken for a duplicate of the first and never stored.)
+	fieldIdxOf := map[*structFieldSet]int{}
+	for _, v := range d.fieldMap {
+		if _, exists := fieldIdxOf[v]; !exists {
+			fieldIdxOf[v] = len(fieldIdxOf)
 		}
-		fieldUniqueNameMap[lower] = fieldIdx
+		v.fieldIdx = fieldIdxOf[v]
 	}
-	d.fieldUniqueNameNum = len(fieldUniqueNameMap)
+	d.fieldUniqueNameNum = len(fieldIdxOf)
 
 	if d.isTriedOptimize {
 		return
